@@ -65,7 +65,8 @@ func NewSolver(kind string, timeoutMs int) (*Solver, error) {
 		s.raw("(set-option :global-declarations true)\n(set-option :produce-models true)\n")
 		s.raw(fmt.Sprintf("(set-option :timeout %d)\n", timeoutMs))
 	} else {
-		s.raw("(set-logic ALL)\n")
+		// the command-line flag does not make declarations survive (pop) in cvc5 1.0; the option does
+		s.raw("(set-option :global-declarations true)\n(set-logic ALL)\n")
 	}
 	if _, err := s.roundtrip(); err != nil {
 		return nil, err
